@@ -4,6 +4,7 @@ import (
 	"fmt"
 	"go/token"
 	"go/types"
+	"os"
 	"slices"
 	"strings"
 
@@ -363,6 +364,9 @@ func (in *Interp) ensurePkg(pkg *ssa.Package) {
 		}
 	}
 	initFn := pkg.Func("init")
+	if initFn != nil {
+		in.ensureBuilt(initFn)
+	}
 	if initFn != nil && initFn.Blocks != nil {
 		in.runInit(pkg, initFn)
 	}
@@ -389,7 +393,7 @@ func (in *Interp) runInit(pkg *ssa.Package, fn *ssa.Function) {
 			case unsupportedErr, targetPanic:
 				// leave remaining globals zero / poisoned
 				if in.ex.cfg.Verbose {
-					fmt.Printf("init of %s stopped: %v\n", pkg.Pkg.Path(), r)
+					fmt.Fprintf(os.Stderr, "init of %s stopped: %v\n", pkg.Pkg.Path(), r)
 				}
 			default:
 				panic(r)
